@@ -253,6 +253,23 @@ func cmdCheck(args []string) {
 		fl = append(fl, f)
 	}
 	sort.Strings(fl)
+	// thorough tier: every contract of the property is also checked at run time on the real code (sampled
+	// boundary inputs, all alias patterns, the class D differential experiment). Labelled run-time checking,
+	// never counted as proof; it exercises the assumed contracts (math/big, the unsafe bridge) the proofs rest on.
+	var rtc map[string]interface{}
+	rtcFail := 0
+	if *tier == "thorough" && len(violations) == 0 {
+		checked, trials, fails := runtimeCheck(W, fl)
+		rtc = map[string]interface{}{"label": "run-time assertion checking (sampled, not proof)", "functions": checked, "inputs": trials, "failures": len(fails)}
+		for i, f := range fails {
+			os.MkdirAll(repDir, 0o755)
+			path := filepath.Join(repDir, fmt.Sprintf("runtime_%d.json", i+1))
+			bd, _ := json.MarshalIndent(map[string]interface{}{"property": prop, "obligation": f.name + "/runtime", "counterexample": map[string]interface{}{"failing_input": f.msg, "function": f.name}, "replay_test": f.testFile}, "", " ")
+			os.WriteFile(path, bd, 0o644)
+			fmt.Printf("VIOLATION property=%s replay=%s obligation=%s/runtime %s\n", prop, path, f.name, truncate(f.msg, 200))
+			rtcFail++
+		}
+	}
 	var samples []map[string]interface{}
 	for i, o := range obls {
 		if i%(len(obls)/8+1) == 0 {
@@ -317,6 +334,7 @@ func cmdCheck(args []string) {
 			"obligations_by_class":                 byClass,
 			"loops_without_termination_obligation": noTerm,
 			"bounded_standins":                     bounded,
+			"runtime_checking":                     rtc,
 			"exhaustive":                           false,
 		},
 		"assumptions": assumptions,
@@ -333,6 +351,9 @@ func cmdCheck(args []string) {
 		bd, _ := json.MarshalIndent(map[string]interface{}{"property": prop, "obligation": "bounded stand-in / evaluated base case", "output": boundedFail}, "", " ")
 		os.WriteFile(bp, bd, 0o644)
 		fmt.Printf("VIOLATION property=%s replay=%s an evaluated assumption of the proofs does not hold on this tree\n", prop, bp)
+		os.Exit(1)
+	}
+	if rtcFail > 0 {
 		os.Exit(1)
 	}
 	if len(violations) > 0 || len(problems) > 0 || len(obls) == 0 {
@@ -466,4 +487,56 @@ func verifSrcDir() string {
 		return d
 	}
 	return "/verif"
+}
+
+type rtFail struct{ name, msg, testFile string }
+
+// runtimeCheck runs the contract-to-Go harness of every named function on the real code.
+func runtimeCheck(W *World, names []string) (int, int, []rtFail) {
+	type res struct {
+		name, out, src string
+	}
+	ch := make(chan res)
+	sem := make(chan bool, 8)
+	n := 0
+	for _, name := range names {
+		fc, fn := W.spec.Funcs[name], W.funcs[name]
+		if fc == nil || fn == nil || fn.Blocks == nil || fn.Pkg != W.spkg {
+			continue
+		}
+		src, err := W.racTest(fn, fc)
+		if err != nil {
+			continue
+		}
+		n++
+		go func(name, src string) {
+			sem <- true
+			out, _ := runRAC(W, src, []string{"VERIF_SEED=" + os.Getenv("VERIF_SEED"), "RAC_SECONDS=8", "RAC_TRIALS=20000"}, 150*time.Second)
+			<-sem
+			ch <- res{name, out, src}
+		}(name, src)
+	}
+	var fails []rtFail
+	trials := 0
+	for i := 0; i < n; i++ {
+		r := <-ch
+		for _, l := range strings.Split(r.out, "\n") {
+			if j := strings.Index(l, "RACDONE trials="); j >= 0 {
+				var k int
+				fmt.Sscanf(l[j:], "RACDONE trials=%d", &k)
+				trials += k
+			}
+			if j := strings.Index(l, "RACFAIL "); j >= 0 {
+				if strings.Contains(l, "kind=hang") {
+					continue // slow or hung: only termination obligations may count it
+				}
+				keep := filepath.Join(verifDir(), "replays", "tests")
+				os.MkdirAll(keep, 0o755)
+				tf := filepath.Join(keep, sanitize(r.name)+"_runtime_test.go")
+				os.WriteFile(tf, []byte(r.src), 0o644)
+				fails = append(fails, rtFail{r.name, strings.TrimSpace(l[j+8:]), tf})
+			}
+		}
+	}
+	return n, trials, fails
 }
